@@ -60,9 +60,9 @@ def deserialize (data : Json α) : Res (Polygon α) := do
   let l ← Loop.deserialize data
   Polygon.ofLoop l
 
-/-- `Serialize for Polygon3D`: `get_closed_loop().serialize()` -/
+/-- `Serialize for Polygon3D`: `try_get_closed_loop()` (its `Err` becomes a serialisation error), then `serialize()` -/
 def serialize (pg : Polygon α) : Res (List α) := do
-  let l ← pg.getClosedLoop
+  let l ← pg.tryGetClosedLoop
   .ok l.serialize
 
 end Polygon
